@@ -85,8 +85,8 @@ def diff(p, q): return max(float(np.max(np.abs(np.asarray(a) - np.asarray(b)))) 
 def ev(p, z): return complex(_polynomial_evaluate(p, np.asarray(z, dtype=np.complex128), clmo))
 bad = {}
 sysm = System.from_bodies("earth", "moon")
-for k in (1, 2):
-    pt = sysm.get_libration_point(k); P = rnd()
+for k in (1, 2, 4, 5):
+    pt = sysm.get_libration_point(k); P = rnd(); MIX = (1, 2) if k <= 3 else (0, 1, 2)      # triangular points mix all three pairs
     for r, c in (("real_modal", "complex_modal"), ("real_partial_normal", "complex_partial_normal"), ("center_manifold_real", "center_manifold_complex"), ("real_full_normal", "complex_full_normal")):
         for a, b in ((r, c), (c, r)):
             tag = "L%d_%s_to_%s" % (k, a, b)
@@ -99,10 +99,11 @@ for k in (1, 2):
             for _ in range(3):
                 z = rng.uniform(-0.6, 0.6, 6) + 1j * rng.uniform(-0.6, 0.6, 6)
                 # value at a point of the target form = value at the mapped point of the source form
-                src_pt = _solve_real(z, mix_pairs=(1, 2)) if b == c else _solve_complex(z, mix_pairs=(1, 2))
+                src_pt = _solve_real(z, mix_pairs=MIX) if b == c else _solve_complex(z, mix_pairs=MIX)
                 va, vb = ev(h.poly_H, src_pt), ev(mid.poly_H, z)
                 if abs(va - vb) > 1e-9 * max(1.0, abs(va)): bad[tag + "_pointwise"] = "H_target(z) = %s but H_source(map z) = %s" % (vb, va); break
-    # physical <-> real_modal against the linear coordinate change
+    # physical <-> real_modal against the linear coordinate change (collinear points)
+    if k > 3: continue
     Pr = rnd(cplx=False)
     try:
         hp = Hamiltonian(cp(Pr), DEG, 3, name="physical"); hm = hp.to_state("real_modal", point=pt)
